@@ -636,11 +636,22 @@ func runNest(c *core.Ctx, idx *int) {
 
 var primes = []int64{7, 3, 2, 11, 5, 13, 17, 19}
 
+// decimals: leaves for which + and * are not associative in float64
+// (0.1 + (0.2 + 0.3) != (0.1 + 0.2) + 0.3), so that a regrouping of a chain of
+// one operator shows in the value; floatLeaves switches the leaf table.
+var decimals = []float64{0.1, 0.2, 0.3, 0.7, 1.1, 2.3, 0.6, 1.7}
+var floatLeaves bool
+
 // arithValues evaluates the arithmetic tree on the constant leaves under
 // integer and under exact division; it only chooses the probe constants (the
 // oracle is agreement between the constructed and the re-parsed script).
 func arithValues(s *shape, next *int) (i int64, f float64, iok bool) {
 	if s == nil {
+		if floatLeaves {
+			v := decimals[*next%len(decimals)]
+			*next++
+			return 0, v, false
+		}
 		v := primes[*next%len(primes)]
 		*next++
 		return v, float64(v), true
@@ -664,6 +675,11 @@ func arithValues(s *shape, next *int) (i int64, f float64, iok bool) {
 
 func arithNode(s *shape, next *int) *node {
 	if s == nil {
+		if floatLeaves {
+			v := decimals[*next%len(decimals)]
+			*next++
+			return scriptref.C(v)
+		}
 		v := primes[*next%len(primes)]
 		*next++
 		return scriptref.C(v)
